@@ -38,7 +38,7 @@ RULE = ("Three case kinds. (interp, 84 %) geometry (dense 3B2 / NP2.1 / NP2.4 (s
         "dilated by 1-6 channels, good and bad swapped, rolled) precedes the checked calls. detect: input C-ordered, the "
         "transposed view of an (ns, nc) array (what Reader[a:b, :nc].T is) or every second sample of a longer array, writable "
         "or read-only; fs positional or keyword; similarity_threshold / psd_hf_threshold omitted, given at their default values "
-        "(tuple, list, array; 0.02) singly or together, or moved mildly ((-0.4, 0.8) + 0.012, (-0.6, 1.5) + 0.035); in 1/4 of "
+        "(tuple, list, array; 0.02) singly or together, or moved mildly ((-0.4, 0.8) + 0.012, (-0.6, 1.5) + 0.035); in about a third of "
         "the drawn cases a second call: either the same array object again (same labels required), or - before the checked "
         "call - the same recording with the channels reversed, whose returned labels and features must still be intact "
         "afterwards. file: the recording given as Path, str or an open Reader (which must return the same samples after the "
@@ -685,7 +685,8 @@ def _detect_case(draw):
             "dtype": draw(st.sampled_from(["f8", "f4"])), "bg": draw(_st_bg()), "fault": draw(_st_fault(nc)),
             "layout": draw(st.sampled_from(["C", "T", "T", "strided"])), "ro": draw(st.booleans()),
             "kw": draw(st.sampled_from(_DETECT_FORMS)),
-            "reuse": draw(st.sampled_from(["none", "none", "none", "none", "none", "none", "pollute", "twice"]))}
+            # (Hypothesis draws the first element of a list about half of the time and the others evenly)
+            "reuse": draw(st.sampled_from(["none", "pollute", "none", "twice", "pollute"]))}
 
 
 @st.composite
@@ -716,7 +717,7 @@ def _file_case(draw):
     return {"kind": "file", "gen": gen, "cbin": draw(st.sampled_from([False, False, True])), "nb": nb,
             "bd": bd, "gap": gap, "fs": draw(st.sampled_from([FS_AP, 29999.757983])),
             "bg": draw(_st_bg()), "faults": faults, "sync_seed": draw(st.integers(0, 2 ** 16)),
-            "input": draw(st.sampled_from(["path", "str", "reader", "reader", "reader_twice"])),
+            "input": draw(st.sampled_from(["reader", "str", "path", "reader_twice", "reader"])),
             "batch_view": draw(st.booleans())}
 
 
